@@ -175,3 +175,26 @@ Proof.
   intros H tr st g v R Hr.
   exact (set_result_same_key calls (ck (calls g)) (fun g' _ => H g') tr st g v R Hr eq_refl).
 Qed.
+
+(* an execution accepted with the observed instances is a run of the system *)
+Lemma crun_obs_run calls tr : forall st st',
+  crun_obs calls st tr = Some st' -> crun calls st (map fst tr) = Some st'.
+Proof.
+  induction tr as [|[e exp] tr IH]; intros st st' H; simpl in *; auto.
+  destruct (cstep calls st e) as [st1|]; [|discriminate].
+  destruct (match e with CLoad g => _ | _ => _ end); [auto | discriminate].
+Qed.
+
+(* what acceptance of a recorded execution gives: it is a run of the system, so
+   every delivered token was fetched by a call on the same status key *)
+Lemma accepted_trace_same_key tbl tr :
+  set_accepts tbl tr = true ->
+  (forall g, csrc (table_calls tbl g) = None) ->
+  exists st, crun (table_calls tbl) cinit (map fst tr) = Some st /\
+    forall g v, nget (results st) g = Some v -> ck (table_calls tbl v) = ck (table_calls tbl g).
+Proof.
+  unfold set_accepts. intros A H.
+  destruct (crun_obs (table_calls tbl) cinit tr) as [st|] eqn:R; [|discriminate].
+  exists st. pose proof (crun_obs_run _ _ _ _ R) as R'. split; auto.
+  intros g v Hr. eapply shared_set_result_same_key; eauto.
+Qed.
